@@ -34,6 +34,7 @@ def step (s : DState) (line : String) : DState × String :=
   | some ("k13big", _) => (s, k13big toks)
   | some ("kmuxfid", _) => (s, kmuxfid toks)
   | some ("kstale", _) => (s, kstale toks)
+  | some ("kalias", _) => (s, kalias toks)
   | some ("kchunk", _) => (s, kchunk toks)
   | some ("kneg", _) => (s, kneg toks)
   | some ("klfs", _) => (s, klfs toks)
